@@ -201,7 +201,11 @@ FINDINGS: typing.Dict[str, dict] = {
         signature=r'.'),
     'F-C06-CPP-GLOBAL-CLASH': dict(
         trigger=lambda j: j.lang == 'cpp' and bool(clashing_roots(j)),
-        signature=r'redeclared as different kind of|conflicts with a previous declaration|is ambiguous|does not name a type|has not been declared|is not a (class|namespace)|expected'),
+        signature=r'declared as non-function|redeclared as different kind of|conflicts with a previous declaration|is ambiguous|does not name a type|has not been declared|is not a (class|namespace)|expected'),
+    'F-C06-CPP-MEMBER-CLASH': dict(
+        trigger=lambda j: (j.lang == 'cpp' or (j.lang == 'c' and j.variant == 'cxx14')) and (
+            bool({'size_t', 'std'} & names_of(j.clos)) or ('allocator_type' in names_of(j.clos) and (j.cfg['std'] or '').endswith('pmr'))),
+        signature=r'size_t|conflicts with a previous declaration|is not a member of .*std|std.* is not a (class|namespace)|expected'),
     'F-C06-PY-POD': dict(
         trigger=lambda j: j.lang == 'py' and j.cfg['pod'],
         signature=r"No module named 'nunavut_support'"),
@@ -647,7 +651,7 @@ def main(chk: core.Check, replay: typing.Optional[str] = None) -> int:
         doc = json.load(open(replay))
         cases = [doc['case']] if 'case' in doc else dg.corpus()
     else:
-        n_random = 4 if quick else 36
+        n_random = 4 if quick else 24
         cases = dg.corpus() + [gen.case(chk.rng.choice([5, 8, 8, 10])) for _ in range(n_random)]
     configs = all_configs()
     if 'F-C06-PY-POD' in live:
